@@ -2499,6 +2499,10 @@ pub fn compile<I: BufRead, O: Write>(
                 error: format!("Line break in the value of -D option: {}", def),
             });
         }
+        // As with any C compiler, the last -D of a name wins
+        if context.get_macro(def).is_some() {
+            context.undefine(def);
+        }
         context.define(def, value);
     }
 
